@@ -389,20 +389,38 @@ impl IsoDate {
         // 1. Assert: year, month, day, years, months, weeks, and days are integers.
         // 2. Assert: overflow is either "constrain" or "reject".
         // 3. Let intermediate be ! BalanceISOYearMonth(year + years, month + months).
-        let intermediate = balance_iso_year_month(
-            self.year + duration.years.as_date_value()?,
-            i32::from(self.month) + duration.months.as_date_value()?,
-        );
+        // NOTE: The sums are computed in 64 bits: the duration fields are only known to fit
+        // an `i32`, so `year + years` (and the values below) may exceed the 32 bit range.
+        let years = i64::from(self.year) + i64::from(duration.years.as_date_value()?);
+        let months = i64::from(self.month) + i64::from(duration.months.as_date_value()?);
+        let intermediate_year = years + (months - 1).div_euclid(12);
+        let intermediate_month = (months - 1).rem_euclid(12) + 1;
+        if !(-271_821..=275_760).contains(&intermediate_year) {
+            return Err(
+                TemporalError::range().with_message("Date is not within ISO date time limits.")
+            );
+        }
 
         // 4. Let intermediate be ? RegulateISODate(intermediate.[[Year]], intermediate.[[Month]], day, overflow).
-        let intermediate =
-            Self::new_with_overflow(intermediate.0, intermediate.1, self.day, overflow)?;
+        let intermediate = Self::new_with_overflow(
+            intermediate_year as i32,
+            intermediate_month as u8,
+            self.day,
+            overflow,
+        )?;
 
         // 5. Set days to days + 7 × weeks.
-        let additional_days =
-            duration.days.as_date_value()? + (duration.weeks.as_date_value()? * 7);
+        let additional_days = i64::from(duration.days.as_date_value()?)
+            + (i64::from(duration.weeks.as_date_value()?) * 7);
+        // NOTE: intermediate is within the ISO limits, any result further away than the
+        // width of the supported range is out of range.
+        if additional_days.abs() > 2 * i64::from(MAX_EPOCH_DAYS) {
+            return Err(
+                TemporalError::range().with_message("Date is not within ISO date time limits.")
+            );
+        }
         // 6. Let d be intermediate.[[Day]] + days.
-        let intermediate_days = i32::from(intermediate.day) + additional_days;
+        let intermediate_days = i32::from(intermediate.day) + additional_days as i32;
 
         // 7. Return BalanceISODate(intermediate.[[Year]], intermediate.[[Month]], d).
         Ok(Self::balance(
